@@ -290,13 +290,20 @@ def gen_cycle_design(r, wordlevel=False):
             taken.add((n, b))
         tw = hi - lo
 
-        def src(width):
+        def src1(width):
             m_ = r.choice(list(sigs))
             mw = sigs[m_]
             if mw >= width:
                 a = r.randint(0, mw - width)
                 return ["slice", ["sig", m_, mw, False], a, a + width, None]
             return ["cat", [["sig", m_, mw, False], ["slice", ["sig", "f0", 4, False], 0, width - mw, None]]]
+
+        def src(width):
+            # bits of different signals side by side, so that single bits of an operator's output close a loop
+            if width >= 2 and r.random() < 0.35:
+                k_ = r.randint(1, width - 1)
+                return ["cat", [src1(k_), src1(width - k_)]]
+            return src1(width)
         fr = lambda width: ["slice", ["sig", r.choice(["f0", "f1"]), 4, False], 0, width, None]
         c = r.random()
         if wordlevel:
@@ -541,38 +548,41 @@ def structural_job(job):
     out = []
     base = {"program": "", "nontrivial": False, "kind": "logic vs instance/memory/buffer output"}
     cases = []
-    for overlap in (True, False):
+    geoms = [((0, 2), (1, 3)), ((0, 2), (2, 4)), ((1, 2), (0, 2)), ((2, 4), (1, 4)), ((1, 3), (0, 2)), ((1, 3), (0, 1)), ((1, 3), (3, 4)), ((0, 4), (3, 4))]
+    for (ir, lr) in geoms:
         for kind in ("instance", "memory", "iobuffer"):
             for dom in ("comb", "sync"):
-                cases.append((kind, dom, overlap))
-    for kind, dom, overlap in cases:
+                cases.append((kind, dom, ir, lr))
+    for kind, dom, ir, lr in cases:
+        overlap = max(ir[0], lr[0]) < min(ir[1], lr[1])
+        iw = ir[1] - ir[0]
         s = Signal(4, name="s")
         x = Signal(2, name="x")
         m = Module()
         m.domains.sync = ClockDomain("sync", reset_less=True)
         ports = [x]
         if kind == "instance":
-            m.submodules.inst = Instance("blackbox", o_q=s[0:2])
+            m.submodules.inst = Instance("blackbox", o_q=s[ir[0]:ir[1]])
         elif kind == "iobuffer":
-            pad = IOPort(2, name="pad")
-            m.submodules.buf = IOBufferInstance(pad, i=s[0:2])
+            pad = IOPort(iw, name="pad")
+            m.submodules.buf = IOBufferInstance(pad, i=s[ir[0]:ir[1]])
             ports.append(pad)
         else:
-            mem = LibMemory(shape=2, depth=4, init=[])
+            # a read port's data signal is the port's output: logic on some of its bits collides with the port
+            mem = LibMemory(shape=4, depth=4, init=[])
             m.submodules.mem = mem
             rp = mem.read_port(domain="comb")
-            m.d.comb += s[0:2].eq(rp.data)        # legal: logic driven by the port; the conflict is on rp.data below
             a = Signal(2, name="a")
             ports.append(a)
             m.d.comb += rp.addr.eq(a)
-        if kind == "memory":
-            tgt = rp.data if overlap else s[2:4]
-        else:
-            tgt = s[1:3] if overlap else s[2:4]
+            if not overlap:
+                continue                         # every bit of rp.data is driven by the port: there is no disjoint case
+            s = rp.data
+        tgt = s[lr[0]:lr[1]]
         m.d[dom] += tgt.eq(x)
         outcome, msg = convert_outcome(m, ports + [s])
         want = "conflict" if overlap else "ok"
-        r = dict(base, id=f"{job['id']}-{kind}-{dom}-{'overlap' if overlap else 'disjoint'}", program=f"{kind} output on s[0:2], {dom} logic on {'overlapping' if overlap else 'disjoint'} bits",
+        r = dict(base, id=f"{job['id']}-{kind}-{dom}-{ir[0]}{ir[1]}-{lr[0]}{lr[1]}", program=f"{kind} output on s[{ir[0]}:{ir[1]}], {dom} logic on s[{lr[0]}:{lr[1]}] ({'overlapping' if overlap else 'disjoint'})",
                  assertion="overlap with an instance/memory/buffer output is a driver conflict; disjoint bits are accepted")
         if outcome == want:
             out.append(dict(r, status=PROVED))
